@@ -2,3 +2,4 @@ import Gomjml.Props.C03
 #print axioms Gomjml.Props.C03.C03_partial
 #print axioms Gomjml.Layout.C02_C03_tame
 #print axioms Gomjml.Layout.wf_spec
+#print axioms Gomjml.Props.C03.C03_all_bodies
